@@ -74,7 +74,7 @@ uint64_t hash_bytes(const void *p, size_t n, uint64_t h) {
 }
 
 const char *call_name(int c) {
-  static const char *n[] = {"none", "read", "write", "close", "unlink", "fchown", "fchmod", "futimens", "open", "lstat", "fstat", "stderr"};
+  static const char *n[] = {"none", "read", "write", "close", "unlink", "fchown", "fchmod", "futimens", "open", "lstat", "fstat", "stderr", "malloc"};
   return c >= 0 && c < C_NCALLS ? n[c] : "?";
 }
 const char *policy_name(int p) {
@@ -1079,8 +1079,10 @@ static void arena_end_of_run() {     // keep the resident set bounded: give back
 }
 #endif
 
+static Fault *match_fault(int call, int role);
 void *simw_malloc(size_t n) { SHIM;
   State &s = *S;
+  if (n >= 65536) if (Fault *f = match_fault(C_MALLOC, R_ANY)) { errno = f->err ? f->err : ENOMEM; return nullptr; }      // injected allocation failure (large blocks only)
 #ifdef SIM_ASAN
   if (n >= POOL_MIN) {
     char *pp = pool_get(n, s.plan->junk);
